@@ -20,10 +20,17 @@ from ..vh import VH
 
 KF_NAME_GRAPH = "KF-C16-cycle-graph-is-name-level-first-registered"
 KF_HASH = "KF-C16-cycle-report-depends-on-hash-order"
-HDR = "import pytest\n\n"
+HDR = "import pytest\nimport pytest_asyncio\n\n"
+LOOP_SCOPES = ["session", "module", "function", "class"]
 
 
-def fx(name, deps, scope):
+def fx(name, deps, scope, variant=0):
+    """variant (derived from the name by the caller) picks a decorator spelling; pytest-asyncio's loop_scope= selects the
+    event loop and says nothing about the fixture's caching scope"""
+    if variant % 7 == 3:
+        ls = LOOP_SCOPES[variant % 4]
+        d = f'@pytest_asyncio.fixture(loop_scope="{ls}", scope="{scope}")' if scope != "function" else f'@pytest_asyncio.fixture(loop_scope="{ls}")'
+        return f"{d}\nasync def {name}({', '.join(deps)}):\n    return 1\n\n"
     d = f'@pytest.fixture(scope="{scope}")' if scope != "function" else "@pytest.fixture"
     return f"{d}\ndef {name}({', '.join(deps)}):\n    return 1\n\n"
 
@@ -66,7 +73,7 @@ def gen_graph_ws(root, rng, unique):
             p[2] = deps
         ws.features.add(("ring_with_unknown_first",))
     for nm, f, deps, scope in placed:
-        files[f].append(fx(nm, deps, scope))
+        files[f].append(fx(nm, deps, scope, variant=rng.randint(0, 13)))
     for f, parts in files.items():
         body = HDR + "".join(parts)
         if os.path.basename(f).startswith("test_"):
@@ -231,6 +238,7 @@ def run(ctx):
         pinned(ctx, vh)
         if os.environ.get("VERIF_ONLY_PINNED"):
             return
+        concurrent_cycles(ctx, 300 if quick else 30000)
         for i in range(n):
             root = ctx.scratch(f"g{i}")
             ws = gen_graph_ws(root, ctx.rng, unique=(i % 2 == 0))
@@ -281,6 +289,47 @@ def run(ctx):
                 shutil.rmtree(droot, ignore_errors=True)
             ctx.count("graphs")
             shutil.rmtree(root, ignore_errors=True)
+    finally:
+        vh.close()
+
+
+def concurrent_cycles(ctx, count):
+    """the memoised cycle report is computed by one request while an edit that closes a ring completes on another thread;
+    at quiescence the report must contain the ring (interleavings from the serialising scheduler, shard-lock granularity)"""
+    import json as _j
+    D = "/vf_c16/pkg"
+    conf, test = f"{D}/conftest.py", f"{D}/test_t.py"
+    open_chain = HDR + fx("ra", ["rb"], "function") + fx("rb", ["rc"], "function") + fx("rc", [], "function") + fx("lone", [], "function")
+    ring = HDR + fx("ra", ["rb"], "function") + fx("rb", ["rc"], "function") + fx("rc", ["ra"], "function") + fx("lone", [], "function")
+    setup = [{"op": "analyze", "db": 0, "path": conf, "text": open_chain}, {"op": "analyze", "db": 0, "path": test, "text": "def test_t(ra):\n    pass\n"}]
+    threads = [[{"op": "analyze", "db": 0, "path": conf, "text": ring}],
+               [{"op": "cycles", "db": 0}, {"op": "cycles", "db": 0}],
+               [{"op": "cycles_in_file", "db": 0, "path": conf}]]
+    after = [{"op": "cycles", "db": 0, "observe": True}, {"op": "cycles_in_file", "db": 0, "path": conf, "observe": True}]
+    vh = VH(vh_bin(), locklog=os.path.join(ctx.scratch_root, "lock_vh_cc.log"), env={"VERIF_SHARDS": "2"})
+    try:
+        for mode, pct in (("uniform", None), ("pct2", 2)):
+            r = vh.call(op="sched_scenario", setup=setup, threads=threads, after=after, seed=ctx.seed * 17 + 1, count=count, pct=pct, est=200, timeout=1800)
+            if "distinct_schedules" not in r:
+                raise Inconclusive(f"harness refused the scenario: {str(r)[:300]}")
+            ctx.judged(count)
+            for o in r["outcomes"]:
+                obs = o["index"].split(";;OBS=", 1)[-1]
+                seen = []
+                for part in obs.split("|{"):
+                    part = part if part.startswith("{") else "{" + part
+                    try:
+                        v = _j.loads(part)
+                    except Exception:
+                        continue
+                    if "cycles" in v:
+                        seen.append({frozenset(c["path"]) for c in v["cycles"]})
+                if len(seen) != 2:
+                    raise Inconclusive("observation could not be decoded: " + obs[:200])
+                if not all(frozenset({"ra", "rb", "rc"}) in s_ for s_ in seen):
+                    ctx.violation({"kind": "cycle-closed-by-a-concurrent-edit-not-reported-afterwards", "mode": mode},
+                                  {"seed": o["first_seed"], "count": o["count"], "reported": [sorted(map(sorted, s_)) for s_ in seen]})
+            ctx.nontrivial(("concurrent_cycles", mode, r["distinct_schedules"] > 10))
     finally:
         vh.close()
 
